@@ -110,6 +110,12 @@ def install_builtins(reg: Registry):
 
     @b("zip")
     def _zip(ex, args, kw, node):
+        if len(args) == 1 and isinstance(args[0], V.StarSeq):
+            seq = args[0].seq
+            probe = seq.item(z3.Int(ex.ctx.fresh("probe")))
+            if not isinstance(probe, tuple):
+                raise U("zip(*seq) of non-tuple items", node)
+            return V.Unzipped(seq, len(probe))
         concs = [V.try_concrete_iter(ex, a) for a in args]
         if all(c is not None for c in concs):
             return list(zip(*concs))
@@ -136,6 +142,8 @@ def install_builtins(reg: Registry):
     def _list(ex, args, kw, node):
         if not args:
             return []
+        if isinstance(args[0], V.Unzipped):
+            return args[0]
         c = V.try_concrete_iter(ex, args[0])
         if c is not None:
             return list(c)
